@@ -77,6 +77,9 @@ class Scratch:
             layout = os.path.join(self.dir, "kv_layout.rs")
             write_layout(layout)
             extra += '\n#[cfg(kani)] #[path = "%s"] pub(crate) mod kv_layout;\n' % layout
+            gen = os.path.join(self.dir, "kv_gen.rs")
+            write_gen(gen)
+            extra += '\n#[cfg(kani)] #[path = "%s"] pub(crate) mod kv_gen;\n' % gen
         with open(libs, "w") as f:
             # inner attributes must precede everything but comments/doc comments;
             # lib.rs starts with //! docs, so put the attribute at the very top.
@@ -87,6 +90,17 @@ class Scratch:
             shutil.rmtree(self.dir, ignore_errors=True)
         else:
             log("kept scratch", self.dir)
+
+
+def write_gen(path):
+    """Constants computed independently of the crate (Python hashlib)."""
+    import hashlib
+    out = []
+    for nm, key in (("PRIMARY", b"kismet: primary shard mixer"), ("SECONDARY", b"kismet: secondary shard mixer")):
+        h = hashlib.sha256(key).digest()
+        out.append("pub const %s_MULT: u64 = %d;" % (nm, int.from_bytes(h[0:8], "little")))
+        out.append("pub const %s_ADD: u64 = %d;" % (nm, int.from_bytes(h[8:16], "little")))
+    open(path, "w").write("\n".join(out) + "\n")
 
 
 LAYOUT_PROBE = r'''
